@@ -1,19 +1,45 @@
 """C16 — HTTP body compression round-trips and the decompressed-size limit holds."""
+import os
 import vlib
+
+HERE = os.path.dirname(os.path.abspath(__file__))
+
+TABLES = [  # (row tag, Coq name, Coq type, is a list of rows)
+    ("IsCompressed", "T_IsCompressed", "list (string * bool)", True),
+    ("Unmarshal", "T_Unmarshal", "list (string * bool)", True),
+    ("ValidateParams", "T_ValidateParams", "list ((string * Z) * bool)", True),
+    ("ClientValidate", "T_ClientValidate", "list ((string * Z) * bool)", True),
+    ("Writer", "T_Writer", "list (string * option N)", True),
+    ("Available", "T_Available", "list (string * option N)", True),
+    ("Enabled", "T_Enabled", "list ((list string * string) * option N)", True),
+    ("EnabledUnknownKey", "T_EnabledUnknownKey", "list string", True),
+    ("EffMax", "T_EffMax", "list (Z * Z)", True),
+    ("DefaultMax", "T_DefaultMax", "Z", False),
+    ("DefaultLevel", "T_DefaultLevel", "Z", False),
+    ("DefaultAlgs", "T_DefaultAlgs", "list string", False),
+    ("EffAlgsNil", "T_EffAlgsNil", "list string", False),
+    ("AvailableKeys", "T_AvailableKeys", "N", False),
+]
 
 
 class P(vlib.Prop):
     pid = "C16"
-    coq_dirs = ["Common", "C16"]
-    coq_targets = ["C16/Properties.vo", "C16/Witness.vo", "C16/Harness.vo"]
+    coq_dirs = ["Common", "C16", "Generated"]
+    tables_harness = vlib.Harness("tables", "config/confighttp", ".",
+                                  {"zz_verif_c16_test.go": "C16/compress_test.go",
+                                   "zz_verif_c16_tables_test.go": "C16/tables_test.go"},
+                                  "^TestVerifC16Tables$", "confighttp", timeout=600)
+    coq_targets = ["C16/Properties.vo", "C16/Witness.vo", "C16/Harness.vo", "C16/Tie.vo"]
     properties_module = "C16.Properties"
     properties_file = "C16/Properties.v"
-    instance_obligations = []
+    instance_obligations = []  # the tie obligations are the tie_* theorems of Properties.v
     harness_module = "C16.Harness"
     case_type = "vcase"
     shard = 40
     harnesses = [
-        vlib.Harness("compress", "config/confighttp", ".", {"zz_verif_c16_test.go": "C16/compress_test.go"},
+        # (same file set as the table-dump harness of P.translate: one test binary, compiled once)
+        vlib.Harness("compress", "config/confighttp", ".",
+                     {"zz_verif_c16_test.go": "C16/compress_test.go", "zz_verif_c16_tables_test.go": "C16/tables_test.go"},
                      "^TestVerifC16$", "confighttp", timeout=1200),
     ]
     rule = ("Every case builds a real client (ClientConfig.Validate + ToClient) and a real server handler chain "
@@ -35,6 +61,10 @@ class P(vlib.Prop):
             "bodies are handed over as opaque readers (no length declared: sent chunked, ContentLength -1 at the server; "
             "identity bodies without declared length get limits at or below their size), method POST/PUT/PATCH/DELETE "
             "(the model has no method input; the declared length is an independent input of the model's server). "
+            "Client `headers:` and header keys: 14% of the random and large cases configure a Content-Encoding header (any spelling "
+            "of the key; value = the compression type, '', another codec, unknown names), 8% an unrelated header, 7% store a "
+            "Content-Encoding value under the non-canonical key content-encoding on the caller's request (the direct path "
+            "canonicalises keys the way the wire does; the TCP path validates that). "
             "Replay: in EVERY case a tap below the package's round trippers records GetBody of the outgoing request before and "
             "after the send (what a transport-level replay would send; compared with the model's w_rewind); ~45% of the "
             "rewindable requests run over TCP with a fault: warm-up on a keep-alive connection, then the server receives the "
@@ -54,10 +84,16 @@ class P(vlib.Prop):
             "of concurrent requests through one client and one server (direct oracle only).")
     trusted_base = [
         "Coq 8.16.1 kernel + vm_compute (coqc); no axioms (Print Assumptions: closed under the global context)",
+        "translator by running the current code (harness/C16/tables_test.go -> coq/Generated/C16Tables.v, rewritten on every run; "
+        "T1 tools/go2coq for newCompressionParams -> coq/Generated/C16Params.v): the tie_* obligations of Properties.v "
+        "(C16/Tie.v) prove IsCompressed, UnmarshalText, ValidateParams (levels -12..30 and outliers), ClientConfig.Validate, "
+        "the type->writer dispatch, availableDecoders, the decoder map built by httpContentDecompressor (every singleton list "
+        "and others) and the ToServer defaults equal to the model on the dumped domains",
         "hand-written model C16/Model.v of configcompression (IsCompressed, ValidateParams), ClientConfig.Validate/ToClient "
         "(compression part), newWriteCloserResetFunc, compressRoundTripper.RoundTrip, availableDecoders, "
         "httpContentDecompressor, decompressor.ServeHTTP/newBodyReader, ToServer defaulting and middleware order, "
-        "maxRequestBodySizeInterceptor, http.MaxBytesReader — tied to the code by the correspondence run only (no translator)",
+        "maxRequestBodySizeInterceptor, headerRoundTripper and its place in the client chain, http.MaxBytesReader — the loop-free "
+        "tables by the tie obligations above, the rest by the correspondence run",
         "Go harness harness/C16/compress_test.go + go test -overlay; Go toolchain; its direct calls of compress/gzip, "
         "compress/zlib, klauspost/compress/zstd, golang/snappy, pierrec/lz4 that fill the codec tables",
     ]
@@ -73,3 +109,37 @@ class P(vlib.Prop):
         "request bodies on the client side do not fail while being read (copy/close errors of compress() are exercised by "
         "the harness but not part of the model)",
     ]
+
+    def translate(self, ctx):
+        """Translator by running the current code (T1 cannot translate these functions, see NOTES.md): dump the whole
+        graph of the finite decision functions / tables of configcompression and confighttp and write them to
+        coq/Generated/C16Tables.v; coq/C16/Tie.v proves the hand-written model equal to them.  Plus T1 proper for
+        the one function it can translate (newCompressionParams)."""
+        vlib.go2coq(ctx, "config/confighttp", os.path.join(HERE, "t1_spec.json"), "C16Params")
+        cases, _oracle, _stats, err = vlib.run_harness(ctx, self.tables_harness, tier="quick")
+        if err:
+            raise vlib.Broken("translator (table dump) does not run against the current tree: " + err.what, err.detail)
+        rows = {}
+        for c in cases:
+            tag, _, term = c["term"].partition(" ")
+            rows.setdefault(tag, []).append(term)
+        out = ["(* GENERATED by props/C16/check.py (P.translate) from harness/C16/tables_test.go run against the current",
+               "   /repo working tree - do not edit.  The whole graph of the finite decision functions and tables of",
+               "   config/configcompression and config/confighttp that C16/Model.v transcribes. *)",
+               "From Coq Require Import ZArith NArith List Bool String.", "Import ListNotations.", ""]
+        for tag, name, ty, is_list in TABLES:
+            r = rows.get(tag, [])
+            if is_list:
+                out.append("Definition %s : %s := [\n  %s\n]." % (name, ty, ";\n  ".join(r)))
+            else:
+                if len(r) != 1:
+                    raise vlib.Broken("translator (table dump): %d rows for %s" % (len(r), tag), "")
+                out.append("Definition %s : %s := %s." % (name, ty, r[0]))
+        text = "\n".join(out) + "\n"
+        path = os.path.join(vlib.COQ, "Generated", "C16Tables.v")
+        if not os.path.exists(path) or open(path).read() != text:
+            with vlib.PropLock("C16"):
+                open(path, "w").write(text)
+        ctx.translator_manifests.append({"file": "harness/C16/tables_test.go (run against /repo/config/confighttp)",
+                                         "lines": None, "sha256": None,
+                                         "defines": [n for _, n, _, _ in TABLES], "params": None})
